@@ -219,7 +219,7 @@ def run_convert(plan, cov, events):
   if not isinstance(L, np.ndarray) or L.shape != (n, n) or not np.isfinite(L).all():
     raise Violation("convert", "shape", "L has shape %s" % (getattr(L, "shape", None),))
   err = np.abs(L.astype(float).T.dot(L.astype(float)) - M.astype(float)).max()
-  bound = (1e-9 if eps_m < 1e-10 else 1e-4) * norm + n * max(-lam, 0) * 2 + (n * tol_eff if lam < 0 else 0)
+  bound = (1e-9 if eps_m < 1e-10 else 1e-4) * norm + n * max(-lam, 0) * 2      # (clipping a negative part changes M by at most |lambda_min| per direction)
   if err > bound:
     raise Violation("convert", "LtL_ne_M,path=%s" % path,
                     "max|L^T L - M| = %g (bound %g, ||M||=%g, rank %s, path %s)"
@@ -385,13 +385,18 @@ def run_prior(plan, cov, events):
     except Exception:
       pass
   world.perturb_ambient(plan["ambient"], 2)
-  with world.observed() as wl:
+  with world.observed() as wl, world.UtilEighSeam(fail_first=bool(plan.get("eigh_fault"))) as ue:
     try:
       fit(est, quads)
       outcome, exc = "ok", None
     except Exception as e:
       outcome, exc = "exc:" + type(e).__name__, e
-  events.append(dict(cfg="prior", learner=learner, option=opt, outcome=outcome))
+  events.append(dict(cfg="prior", learner=learner, option=opt, outcome=outcome, eigh_fault=ue.fired))
+  if ue.fired:
+    cov["util_eigh_fault_fired"] += 1
+    if isinstance(exc, np.linalg.LinAlgError) and "simulated" in str(exc):
+      # the solver failure reached the caller: nothing is promised about this fit
+      raise Inconclusive("solver_exception_propagated_under_forced_failure")
   if arr is not None and digest(arr) != arr_dg:
     raise Violation("prior", "array_modified,learner=%s" % learner, "the caller's prior array was modified")
   strict = learner in ("ITML", "LSML", "SDML")
@@ -696,6 +701,9 @@ def gen_plan(seed, tier):
     plan["prehistory"] = [dict(learner=rp.choice(["LMNN", "NCA", "MLKR"]),
                                init=rp.choice(["auto", "pca", "identity", "random", "lda"]))
                           for _ in range(rp.randint(1, 2))]
+  if cfg == "prior" and plan["option"] in ("array", "indefinite", "singular", "covariance") and \
+      substream(seed, "c20-eighfault").random() < 0.25:
+    plan["eigh_fault"] = True       # the first eigen-decomposition made by _util fails (LinAlgError)
   if cfg in ("prior", "init") and plan["option"] == "array" and substream(seed, "c20-intarr").random() < 0.3:
     plan["arr_int"] = substream(seed, "c20-intarr2").choice(["int64", "int64", "int32"])
   if cfg in ("prior", "init") and plan["option"] == "random" and substream(seed, "c20-fresh").random() < 0.3:
